@@ -65,6 +65,11 @@ func genHistory(r *vlib.Rand, conflicts bool) hist {
 	for i := range cur {
 		cur[i] = align(progs.Gen(r, o))
 	}
+	if np >= 2 && r.Chance(25) {
+		// two program files with byte-identical contents (a copied program): the
+		// same source text under two names is still two programs
+		cur[1] = cur[0].Clone()
+	}
 	n := 6 + r.Intn(7)
 	loaded := make([]bool, np)
 	for len(h.ops) < n {
